@@ -13,7 +13,7 @@ Line-protocol ops for the proof-of-work model (C13). All numbers in decimal.
   pow-validate <network> <state> <header>              → accept | reject <k> | panic
   pow-median   <state>                                 → ok <ns> | panic
   pow-heavier  <state> <state>                         → ok 0|1 | panic
-  pow-work     add|sub|mul64|div64|min|max a b         (limb loops) → ok n | panic
+  pow-work     add|sub|mul64|div64|min|max a b         (limb loops) → ok n | panic;  cmp a b → -1|0|1
   pow-tgt      inv a | add a b | mulfrac x n d | int i → ok n | panic
 -/
 namespace Sia.Driver
@@ -139,6 +139,7 @@ def powWork (args : List String) : String :=
       | "sub" => if b ≥ W256 then "bad-op" else showEL ((Limbs.ofNat a).sub (Limbs.ofNat b))
       | "mul64" => if b ≥ W64 then "bad-op" else showEL ((Limbs.ofNat a).mul64 b)
       | "div64" => if b ≥ W64 then "bad-op" else showEL ((Limbs.ofNat a).div64 b)
+      | "cmp" => if a < b then "-1" else if a = b then "0" else "1"
       | "min" => s!"ok {wmin a b}"
       | "max" => s!"ok {wmax a b}"
       | _ => "bad-op"
